@@ -120,11 +120,13 @@ _pb("C19", "contract-based deductive verification (pyvc, read-only heap with gho
     "preorder, postorder, levels and the export numbering are bounded only.",
     "proof for siblings/dominance/lca, bounded stand-in for the rest; 'other'")
 
-_pb("C04", "contract-based deductive verification (pyvc) of the mover step (detach/attach idiom) as a block contract at every re-attachment site of root_attach, raising, boyd_split and the three punctuation movers; bounded stand-in for whole transformations and sequences",
+_pb("C04", "contract-based deductive verification (pyvc) of add_topnode (with allocation) and of the mover step (detach/attach idiom) as a block contract at every re-attachment site of root_attach, raising, boyd_split and the three punctuation movers; bounded stand-in for whole transformations and sequences",
+    "add_topnode is proved to put exactly one new TOP node above the root and to change nothing else. "
     "Every `children.remove(X)` of the six re-attaching transformations is located in the real AST and the surrounding "
     "step is executed symbolically on an arbitrary link-consistent heap: links stay consistent, only X changes parent, the old "
-    "parent loses exactly X, the target gains exactly X (or X becomes a detached root). Acyclicity, 'no childless constituent', "
-    "token sequence and label multisets are bounded only.",
+    "parent loses exactly X, the target gains exactly X (or X becomes a detached root). Acyclicity (except for root_attach, "
+    "lemma under C12), 'no childless constituent' (except the verylow guard, C13), token sequence and label multisets are "
+    "bounded only.",
     "proof of the link-consistency step at 9 sites (block contracts), bounded stand-in for the transformations; 'other'")
 _pb("C09", "contract-based deductive verification (pyvc) of grammarconst.label_strip_fanout (loop invariant, variant, raises iff all digits); bounded stand-in for the grammar files",
     "label_strip_fanout removes exactly the maximal trailing digit run and raises IndexError exactly for all-digit "
